@@ -151,6 +151,12 @@ impl UseMacro {
                 if use_rename.ident.eq(&self.mac_name){
                     return (Some(Self::create_path(None, use_rename.rename)), None )
                 }
+                // the crate under another name: `use interthread as it;` or `use interthread::{self as it};`
+                // the import stays, `it::actor` denotes the macro from here on
+                else if use_rename.ident.eq(&self.mod_name) || use_rename.ident == "self" {
+                    self.imp_path.push(Self::create_path(Some(use_rename.rename.clone()), self.mac_name.clone()));
+                    return ( None, Some(item_use.clone()) )
+                }
                 else {
                     return ( None, Some(item_use.clone()) )
                 }
